@@ -16,6 +16,8 @@ struct UseBits {
 		(void) a.get(Long{0});
 		(void) (a & b);
 		a &= b;
+		BitArrayT<N> c{a};		// copies: implicit today; if they are ever hand-written, C20.e decides them for every capacity
+		b = c;
 		UseBits<N - 1>::go();
 	}
 };
